@@ -188,6 +188,12 @@ func (s *SwapStateMachine) SendEvent(event EventType, eventCtx EventContext) (bo
 	}
 	var err error
 
+	// Only events the current state accepts may change the swap: look the
+	// transition up before the event context is applied and persisted.
+	if _, err := s.getNextState(event); err != nil {
+		return false, ErrEventRejected
+	}
+
 	// validate and apply event context
 	if eventCtx != nil {
 		err = eventCtx.Validate(s.Data)
